@@ -86,6 +86,11 @@ def run(ctx):
                     v = float(dy(rng)); two[p, q] = v; two[q, p] = v
         const = float(dy(rng))
         dch = of.DiagonalCoulombHamiltonian(one, two, const)
+        extra = np.zeros(n)
+        if i % 4 == 3:
+            # the public two_body attribute reassigned after construction with a non-zero diagonal (V_pp n_p n_p terms of
+            # the documented sum over all p, q); the constructor itself folds such a diagonal into one_body
+            extra = np.array([float(dy(rng)) for _ in range(n)]); dch.two_body = dch.two_body + np.diag(extra)
         out = of.jordan_wigner(dch)
         d = {}
         def addt(t, c):
@@ -95,9 +100,10 @@ def run(ctx):
             for q in range(n):
                 addt(((p, 1), (q, 0)), one[p, q])
                 addt(((p, 1), (p, 0), (q, 1), (q, 0)), two[p, q])
+            addt(((p, 1), (p, 0), (p, 1), (p, 0)), extra[p])
         if not exact_terms_ok(out.terms): ctx.stat('jw_dch', 'discarded_inexact'); continue
         add('jw_dch', '(fermi_pauli_equiv %s %s)' % (coq_fop_terms(d), coq_qop(out)),
-            {'call': 'jordan_wigner(DiagonalCoulombHamiltonian)', 'one_body': repr(one.tolist()), 'two_body': repr(two.tolist()), 'constant': const}, key=repr(d))
+            {'call': 'jordan_wigner(DiagonalCoulombHamiltonian)', 'one_body': repr(one.tolist()), 'two_body': repr(two.tolist()), 'constant': const, 'two_body_diagonal_assigned_afterwards': extra.tolist()}, key=repr(d))
     # D. jordan_wigner_one_body / two_body on every index tuple below 4 (and shifted large indices)
     coefs = [1.0, 0.5 - 1.5j, -2j] if ctx.quick else [1.0, 0.5 - 1.5j, -2j, -0.75, 3 + 1j]
     for shift in ([0] if ctx.quick else [0, 7]):
